@@ -215,6 +215,9 @@ func (r *SparseIntMatrix) MdotM(a, b ConstMatrix) Matrix {
      r.storageLocation() == b.storageLocation() {
     panic("result and argument must be different matrices")
   }
+  for it := r.Iterator(); it.Ok(); it.Next() {
+    it.Get().Reset()
+  }
   t1 := NullScalar(r.ElementType())
   for it := a.ConstIterator(); it.Ok(); it.Next() {
     i, j := it.Index()
